@@ -105,8 +105,8 @@ func C08(r *core.Run) {
 		r.Finish(1)
 	}
 	defer md.Close()
-	kinds := []string{"500", "garbage", "reset", "mixed"}
-	nScripts := r.Pick(2, 12)
+	kinds := []string{"500", "503-empty-body", "garbage", "reset", "mixed", "404-empty-body"}
+	nScripts := r.Pick(3, 12)
 	var wg sync.WaitGroup
 	for si := 0; si < nScripts; si++ {
 		wg.Add(1)
@@ -171,11 +171,15 @@ func c08Script(r *core.Run, agentBin string, md *fakes.Metadata, si, rep int, ki
 		}
 		k := kind
 		if k == "mixed" {
-			k = []string{"500", "garbage", "reset"}[i%3]
+			k = []string{"500", "garbage", "reset", "503-empty-body"}[i%4]
 		}
 		switch k {
 		case "500":
 			http.Error(w, "scripted failure", 500)
+		case "503-empty-body":
+			w.WriteHeader(503) // a bare error status, as a load balancer in front of the proxy would send
+		case "404-empty-body":
+			w.WriteHeader(404)
 		case "garbage":
 			w.WriteHeader(200)
 			w.Write([]byte(`{"not":"a list"`))
